@@ -96,8 +96,11 @@ fn gi<F: Fl>(vals: &mut Vec<Value>, f: impl FnOnce() -> Result<Interval<F>, CIEr
     }
 }
 
-pub fn confs() -> [(&'static str, Confidence); 3] {
-    [("t95", Confidence::new_two_sided(0.95)), ("u90", Confidence::new_upper(0.9)), ("l99", Confidence::new_lower(0.99))]
+/// the queries of one observation; the last repeats the first, so that the query before an update and the query after
+/// it carry the same confidence (a state that remembers "the last answer" must forget it when it is updated)
+pub fn confs() -> [(&'static str, Confidence); 4] {
+    [("t95", Confidence::new_two_sided(0.95)), ("u90", Confidence::new_upper(0.9)), ("l99", Confidence::new_lower(0.99)),
+     ("t95b", Confidence::new_two_sided(0.95))]
 }
 
 /// value code -> float, per flavour
